@@ -449,6 +449,13 @@ def run_tree(root, t):
                     except Exception:
                         outs.append({'first': first, 'errors': ['probe failed: ' + (pr.stderr or pr.stdout)[-300:]], 'path_mismatches': [], 'name_mismatches': []})
                 out = {'probes': outs}
+                try:
+                    import impprog
+                    prog, bad = impprog.extract(os.path.join(root, 'src'))
+                    out['program'] = prog
+                    out['unreadable'] = bad
+                except BaseException as e:
+                    out['unreadable'] = [f"extractor failed: {type(e).__name__}: {e}"]
             elif op == 'immut':
                 out = do_immut(eolib, job)
             elif op == 'enum':
